@@ -90,6 +90,25 @@ pub fn judge(
     }
     let end = if closed { End::Closed } else { End::Open };
     let st = check_replies(where_, &syms, &exps, &replies, end)?;
+    // C06 is stricter than C01 about an early close: every well-formed message that precedes the
+    // malformed one must still be answered, unless the close is explained by one of those
+    // messages itself (a kind after which the service closes, or a mutated-but-well-formed piece)
+    if st.closed_early && st.unanswered_after_close > 0 {
+        let i = syms.len() - st.unanswered_after_close;
+        let excused = exps[i].may_close_instead || (i > 0 && (syms[i - 1].closes() || exps[i - 1].may_close_instead)) || exps[..i].iter().any(|e| e.fin == Fin::Any);
+        if !excused {
+            return Err(Fail::new(
+                format!("{}/preceding-message-unanswered", where_),
+                format!(
+                    "well-formed message #{} ({}) that precedes the faulty one was not answered: {} replies for {} well-formed messages, connection closed",
+                    i,
+                    syms[i].name(),
+                    replies.len(),
+                    syms.len()
+                ),
+            ));
+        }
+    }
     if let Some(why) = malformed {
         if !closed {
             return Err(Fail::new(
